@@ -36,9 +36,12 @@ func main() {
 				"pw:1:a", "cm:1:a:25", "rb:1:a", "cs:1:29:0:0", "cs:1:30:0:0", "cs:1:29:24:0", "cm:1:a:24",
 				"pw:2:a", "cm:2:a:26", "cm:2:a:27", "rb:2:a", "rs:2:ab:0", "rs:2:ab:26",
 				"pw:3:a", "rb:3:a", "cs:3:99:0:0",
+				// callers whose current_ts lies BELOW the lock's start ts (start_ts-1 and 0): never expired
+				"cs:1:9:0:0", "cs:1:0:0:0",
 			}
 			lifeWide := append(append([]string{}, life...),
-				"cs:2:40:0:0", "cs:2:39:0:0", "rs:2:ab:27", "cm:3:a:39", "pw:1:b", "rb:1:ab", "pw:3:b", "cs:3:99:40:1", "cm:1:ab:25", "pw:2:ab")
+				"cs:2:40:0:0", "cs:2:39:0:0", "rs:2:ab:27", "cm:3:a:39", "pw:1:b", "rb:1:ab", "pw:3:b", "cs:3:99:40:1", "cm:1:ab:25", "pw:2:ab",
+				"cs:2:19:0:0", "cs:1:1:0:0", "cs:2:0:0:1")
 			place := []string{"pw:1:a", "cm:1:a:25", "rb:1:a", "pw:2:a", "cs:1:29:24:0", "cm:2:a:27", "rb:2:a"}
 			var cfgs []percseq.Config
 			if r.Quick() {
